@@ -126,6 +126,7 @@ one_set(struct Camera* cam, struct SimulatedCamera* self, uint8_t binning)
         size_t e_ = (((fw_ * fh_ * bpt(asked.pixel_type)) + 31) >> 5) << 5;
         VASSERT(size_of(self->im.render_data) >= e_, "C17: render_data smaller than the full-resolution image the streamer renders into it (after re-configuration)");
         VASSERT(size_of(self->im.frame_data) >= e_, "C17: frame_data smaller than the full-resolution render (after re-configuration)");
+        COVER(e_ > 64);
         return;
     }
 #endif
@@ -151,8 +152,10 @@ one_set(struct Camera* cam, struct SimulatedCamera* self, uint8_t binning)
     struct CameraPropertyMetadata meta;
     VASSERT(simcam_get_meta(cam, &meta) == Device_Ok, "get_meta failed");
     VASSERT((uint32_t)meta.shape.x.high == mx && (uint32_t)meta.shape.y.high == mx && meta.shape.x.low == 1.0f, "C17: metadata limits");
+#if MODE != 3
     COVER(asked.shape.x > mx);
     COVER(asked.shape.x == 0);
+#endif
 }
 
 int
